@@ -26,6 +26,7 @@ mod fam_marginalize;
 mod fam_npy;
 mod fam_project;
 mod fam_text;
+mod fam_toolchain;
 mod symbolic;
 
 pub use common::*;
@@ -61,6 +62,7 @@ fn family(name: &str) -> Option<Runner> {
         "npy" => fam_npy::run,
         "project" => fam_project::run,
         "text" => fam_text::run,
+        "toolchain" => fam_toolchain::run,
         _ => return None,
     })
 }
